@@ -17,7 +17,7 @@ namespace ColumnVerif.Skel
 open ColumnVerif.Generated
 
 /-- the dictionary version this file was written against -/
-def expectedDictVersion : Nat := 5
+def expectedDictVersion : Nat := 6
 
 def isCall (n : Nat) (t : Tok) : Bool := t.2.1 == 1 && t.2.2 == n
 def isDefer (n : Nat) (t : Tok) : Bool := t.2.1 == 2 && t.2.2 == n
@@ -130,6 +130,9 @@ def nColsRange := 73
 def nColsStore := 74
 def nCopy := 75
 def nMake := 76
+def nCompressorClose := 77
+def nOutputClose := 78
+def nCloserClose := 79
 
 /-! ### flags -/
 
@@ -278,5 +281,13 @@ def capacityUnderCollLock : Bool :=
 def registryCopyOnWrite : Bool :=
   has columns_Store (isCall nColsStore) && guardedBy columns_Store (isCall nColsStore) (isCall nCopy) &&
   has columns_DeleteIndex (isCall nColsStore) && guardedBy columns_DeleteIndex (isCall nColsStore) (isCall nCopy)
+
+/-- every compressor a snapshot starts is stopped (defect D27): the state compressor right after `writeState`, before the
+    recorded log is copied; the commit log's compressor in `Log.Close`, before the file is closed -/
+def compressorsClosed : Bool :=
+  ordered Collection_Snapshot [isCall nWriteState, isCall nCompressorClose, isCall nRecCopy] &&
+  cnt Collection_Snapshot (isCall nCompressorClose) == 1 &&
+  ((Collection_Snapshot.find? (isCall nCompressorClose)).map (·.1) == some 0) &&
+  ordered Log_Close [isCall nLock, isDefer nUnlock, isCall nOutputClose, isCall nCloserClose]
 
 end ColumnVerif.Skel
